@@ -537,6 +537,7 @@ pub fn gen(id: &str, r: &mut Rng, out: &mut Vec<Case>) {
             let (x, y) = match r.below(6) { 0 => (nan(r), nan(r)), 1 => (nan(r), operand(r)), 2 => (zero(r), zero(r)), 3 => cohort_pair_wide(r), _ => cmp_pair(r) };
             for op in RUST_CMP.iter() { out.push(case(op, '-', 0, vec![d(x), d(y)])); }
             out.push(case("hash_pair", '-', 0, vec![d(x), d(y)]));
+            if r.chance(1, 4) { out.push(case("hash", '-', 0, vec![d(if r.chance(1, 2) { x } else { y })])); }
             if r.chance(1, 8) { out.push(case("hash_slice", '-', 0, vec![d(x), d(y), d(operand(r))])); }
         }
         "C15" => {
